@@ -194,7 +194,7 @@ package internal
 // count is the oracle for "the delay has elapsed": a stale batch entry for a timer that was
 // cancelled and re-armed in the same poll cycle reads EAGAIN and must not run the callback.
 //@ func (*Timer).Set$1
-//@   prop C04
+//@   prop C04, C03
 //@   requires t != nil && tiInv(t) && cb != nil
 //@   requires !armed(&t.slot, PollerReadEvent)
 //@   remember after call syscall.Read: expired = (result0 == 8 && result1 == nil)
